@@ -45,3 +45,10 @@ package configuration
 //@ func (*configurationStore).store(s, ctx, store, values) (err)
 //@   trusted
 //@   modifies nothing
+
+// ---- interface contract of the v3 configuration store as the v3 controller relies on it (assumed) ----
+//@ iface Store.UpdateStatus(ctx, configuration) (err)
+//@   requires configuration != nil
+//@   modifies v3CfgStatusWrites, configuration.ObjectMeta
+//@   ensures v3CfgStatusWrites == old(v3CfgStatusWrites) + 1
+//@   ensures errWF(err)
